@@ -637,6 +637,8 @@ func (e *Engine) lookupNative(fi *FnInfo) *Native {
 			e.timerCtx(s)[tid] = id
 			return Ptr{obj: tid}
 		})
+	case "time.runtimeNano":
+		return simple(func(e *Engine, s *State, gi int, args []Value) Value { return ts.Const(64, 1) })
 	case "time.NewTicker":
 		// a ticker that never ticks within the explored window (periodic wake-ups are outside the
 		// bound, like unarmed timers)
